@@ -11,7 +11,7 @@ use std::panic::{catch_unwind, AssertUnwindSafe};
 use std::sync::Arc;
 
 use ndarray::{
-    ArcArray, Array, Array1, ArrayD, ArrayView, ArrayViewMutD, Axis, Data, DimAdd, Dimension, Ix0, Ix1, Ix2, Ix3, IxDyn,
+    ArcArray, Array, Array1, ArrayD, ArrayView, ArrayViewMutD, Axis, Data, DimAdd, Dimension, Ix0, Ix1, Ix2, Ix3, Ix4, Ix5, IxDyn,
     OwnedRepr, Slice,
 };
 use ndarray_interp::interp1d::cubic_spline::{BoundaryCondition, CubicSpline, RowBoundary, SingleBoundary};
@@ -42,6 +42,17 @@ impl El for f64 {
     }
     fn poison() -> f64 {
         -1.234_567_890_123e300
+    }
+}
+impl El for crate::yelem::Yf {
+    fn from64(v: f64) -> Self {
+        crate::yelem::Yf(v)
+    }
+    fn bits64(self) -> u64 {
+        canon(self.0.to_bits())
+    }
+    fn poison() -> Self {
+        crate::yelem::Yf(<f64 as El>::poison())
     }
 }
 impl El for f32 {
@@ -312,6 +323,8 @@ macro_rules! gen_exec1 {
 gen_exec1!(exec1_ix1, Ix1, yes);
 gen_exec1!(exec1_ix2, Ix2, no);
 gen_exec1!(exec1_ix3, Ix3, no);
+gen_exec1!(exec1_ix4, Ix4, no);
+gen_exec1!(exec1_ix5, Ix5, no);
 gen_exec1!(exec1_dyn, IxDyn, no);
 
 // ---------------------------------------------------------------------------------------------
@@ -456,6 +469,7 @@ macro_rules! gen_exec2 {
 
 gen_exec2!(exec2_ix2, Ix2, yes);
 gen_exec2!(exec2_ix3, Ix3, no);
+gen_exec2!(exec2_ix4, Ix4, no);
 gen_exec2!(exec2_dyn, IxDyn, no);
 
 // ---------------------------------------------------------------------------------------------
@@ -535,6 +549,27 @@ pub trait SibEl: El {
         Sy: Data<Elem = Self> + ndarray::RawDataClone + Send + Sync + 'static,
         D: Dimension + ndarray::RemoveAxis + Send + Sync + 'static,
         D::Smaller: ndarray::RemoveAxis;
+}
+
+impl SibEl for crate::yelem::Yf {
+    fn sib1<Sd, Sx, D>(_: ndarray::ArrayBase<Sd, D>, _: ndarray::ArrayBase<Sx, Ix1>) -> Option<SibFn>
+    where
+        Sd: Data<Elem = Self> + ndarray::RawDataClone + Send + Sync + 'static,
+        Sx: Data<Elem = Self> + ndarray::RawDataClone + Send + Sync + 'static,
+        D: Dimension + ndarray::RemoveAxis + Send + Sync + 'static,
+    {
+        None
+    }
+    fn sib2<Sd, Sx, Sy, D>(_: ndarray::ArrayBase<Sd, D>, _: ndarray::ArrayBase<Sx, Ix1>, _: ndarray::ArrayBase<Sy, Ix1>) -> Option<SibFn>
+    where
+        Sd: Data<Elem = Self> + ndarray::RawDataClone + Send + Sync + 'static,
+        Sx: Data<Elem = Self> + ndarray::RawDataClone + Send + Sync + 'static,
+        Sy: Data<Elem = Self> + ndarray::RawDataClone + Send + Sync + 'static,
+        D: Dimension + ndarray::RemoveAxis + Send + Sync + 'static,
+        D::Smaller: ndarray::RemoveAxis,
+    {
+        None
+    }
 }
 
 impl SibEl for f32 {
@@ -665,6 +700,8 @@ macro_rules! impl_slot1 {
 impl_slot1!(Ix1, exec1_ix1);
 impl_slot1!(Ix2, exec1_ix2);
 impl_slot1!(Ix3, exec1_ix3);
+impl_slot1!(Ix4, exec1_ix4);
+impl_slot1!(Ix5, exec1_ix5);
 impl_slot1!(IxDyn, exec1_dyn);
 
 macro_rules! impl_slot2 {
@@ -690,6 +727,7 @@ macro_rules! impl_slot2 {
 }
 impl_slot2!(Ix2, exec2_ix2);
 impl_slot2!(Ix3, exec2_ix3);
+impl_slot2!(Ix4, exec2_ix4);
 impl_slot2!(IxDyn, exec2_dyn);
 
 /// run one operation on a slot: publish the stub context, call, collect what the stub saw
@@ -714,10 +752,15 @@ pub fn exec(slot: &dyn Slot, op: &Op) -> Outcome {
             log: StubLog::default(),
         })
     });
+    // the numeric-type seam: element operations of this call may yield (no-op unless the slot's
+    // element type is `Yf` and the thread runs under the baton)
+    crate::yelem::arm(op.yield_mask);
     let mut out = slot.call(&op.call);
+    let elem_yields = crate::yelem::disarm();
     if let Some(ctx) = OPCTX.with(|c| c.borrow_mut().take()) {
         out.stub = ctx.log;
     }
+    out.stub.elem_yields = elem_yields;
     out
 }
 
@@ -842,6 +885,61 @@ macro_rules! storages1 {
                 let sib = <$T as SibEl>::sib1(d.clone(), x.clone());
                 finish1!($T, $D, d, x, $strat, Some(ForceSync(master)), sib, keep)
             }
+        }
+    }};
+}
+
+/// owned storage only (static ranks 4 and 5, f32 splines)
+macro_rules! owned1 {
+    ($cfg:ident, $T:ty, $D:ty, $strat:expr) => {{
+        let data: Array<$T, $D> = data_array::<$T, $D>($cfg)?;
+        let xv: Option<Array1<$T>> = $cfg.x.as_ref().map(|v| axis_array::<$T>(v));
+        let keep = Keep(vec![]);
+        match xv {
+            Some(x) => finish1!($T, $D, data, x, $strat, None, None, keep),
+            None => finish1!(default_axis; $T, $D, data, $strat, None, None, keep),
+        }
+    }};
+}
+
+macro_rules! owned2 {
+    ($cfg:ident, $T:ty, $D:ty, $strat:expr) => {{
+        let data: Array<$T, $D> = data_array::<$T, $D>($cfg)?;
+        let keep = Keep(vec![]);
+        if $cfg.x.is_some() || $cfg.y.is_some() {
+            let xv: Array1<$T> = match &$cfg.x { Some(v) => axis_array::<$T>(v), None => Array1::from_iter($cfg.axis_x().into_iter().map(<$T as El>::from64)) };
+            let yv: Array1<$T> = match &$cfg.y { Some(v) => axis_array::<$T>(v), None => Array1::from_iter($cfg.axis_y().into_iter().map(<$T as El>::from64)) };
+            finish2!($T, $D, data, xv, yv, $strat, None, None, keep)
+        } else {
+            finish2!(default_axis; $T, $D, data, $strat, None, None, keep)
+        }
+    }};
+}
+
+macro_rules! probe1_min_owned {
+    ($cfg:ident, $D:ty) => {{
+        let e = Arc::new(Expect::from_cfg($cfg));
+        match $cfg.probe_min {
+            0 => owned1!($cfg, f64, $D, stub::Probe1::<0> { e: e.clone() }),
+            1 => owned1!($cfg, f64, $D, stub::Probe1::<1> { e: e.clone() }),
+            2 => owned1!($cfg, f64, $D, stub::Probe1::<2> { e: e.clone() }),
+            3 => owned1!($cfg, f64, $D, stub::Probe1::<3> { e: e.clone() }),
+            4 => owned1!($cfg, f64, $D, stub::Probe1::<4> { e: e.clone() }),
+            m => Err(BuildFail::Unsupported(format!("probe minimum {m}"))),
+        }
+    }};
+}
+
+macro_rules! probe2_min_owned {
+    ($cfg:ident, $D:ty) => {{
+        let e = Arc::new(Expect::from_cfg($cfg));
+        match $cfg.probe_min {
+            0 => owned2!($cfg, f64, $D, stub::Probe2::<0> { e: e.clone() }),
+            1 => owned2!($cfg, f64, $D, stub::Probe2::<1> { e: e.clone() }),
+            2 => owned2!($cfg, f64, $D, stub::Probe2::<2> { e: e.clone() }),
+            3 => owned2!($cfg, f64, $D, stub::Probe2::<3> { e: e.clone() }),
+            4 => owned2!($cfg, f64, $D, stub::Probe2::<4> { e: e.clone() }),
+            m => Err(BuildFail::Unsupported(format!("probe minimum {m}"))),
         }
     }};
 }
@@ -972,6 +1070,37 @@ pub fn build_slot(cfg: &SlotCfg) -> Result<Box<dyn Slot>, BuildFail> {
             let mut bc = Some(boundary::<f64, ndarray::IxDyn>(cfg)?);
             storages1!(cfg, f64, ndarray::IxDyn, CubicSpline::new().extrapolate(e).boundary(bc.take().unwrap()))
         }
+        (Kind::Linear, Elem::F64, DimTy::Ix4) => owned1!(cfg, f64, ndarray::Ix4, ndarray_interp::interp1d::Linear::new().extrapolate(e)),
+        (Kind::Linear, Elem::F64, DimTy::Ix5) => owned1!(cfg, f64, ndarray::Ix5, ndarray_interp::interp1d::Linear::new().extrapolate(e)),
+        (Kind::Spline, Elem::F64, DimTy::Ix4) => {
+            let mut bc = Some(boundary::<f64, ndarray::Ix4>(cfg)?);
+            owned1!(cfg, f64, ndarray::Ix4, CubicSpline::new().extrapolate(e).boundary(bc.take().unwrap()))
+        }
+        (Kind::Spline, Elem::F32, DimTy::Ix1) => {
+            let mut bc = Some(boundary::<f32, ndarray::Ix1>(cfg)?);
+            owned1!(cfg, f32, ndarray::Ix1, CubicSpline::new().extrapolate(e).boundary(bc.take().unwrap()))
+        }
+        (Kind::Spline, Elem::F32, DimTy::Ix2) => {
+            let mut bc = Some(boundary::<f32, ndarray::Ix2>(cfg)?);
+            owned1!(cfg, f32, ndarray::Ix2, CubicSpline::new().extrapolate(e).boundary(bc.take().unwrap()))
+        }
+        (Kind::Linear, Elem::Yf, DimTy::Ix1) => owned1!(cfg, crate::yelem::Yf, ndarray::Ix1, ndarray_interp::interp1d::Linear::new().extrapolate(e)),
+        (Kind::Linear, Elem::Yf, DimTy::Ix2) => owned1!(cfg, crate::yelem::Yf, ndarray::Ix2, ndarray_interp::interp1d::Linear::new().extrapolate(e)),
+        (Kind::Linear, Elem::Yf, DimTy::IxDyn) => owned1!(cfg, crate::yelem::Yf, ndarray::IxDyn, ndarray_interp::interp1d::Linear::new().extrapolate(e)),
+        (Kind::Spline, Elem::Yf, DimTy::Ix1) => {
+            let mut bc = Some(boundary::<crate::yelem::Yf, ndarray::Ix1>(cfg)?);
+            owned1!(cfg, crate::yelem::Yf, ndarray::Ix1, CubicSpline::new().extrapolate(e).boundary(bc.take().unwrap()))
+        }
+        (Kind::Spline, Elem::Yf, DimTy::Ix2) => {
+            let mut bc = Some(boundary::<crate::yelem::Yf, ndarray::Ix2>(cfg)?);
+            owned1!(cfg, crate::yelem::Yf, ndarray::Ix2, CubicSpline::new().extrapolate(e).boundary(bc.take().unwrap()))
+        }
+        (Kind::Bilinear, Elem::Yf, DimTy::Ix2) => owned2!(cfg, crate::yelem::Yf, ndarray::Ix2, ndarray_interp::interp2d::Bilinear::new().extrapolate(e)),
+        (Kind::Bilinear, Elem::Yf, DimTy::Ix3) => owned2!(cfg, crate::yelem::Yf, ndarray::Ix3, ndarray_interp::interp2d::Bilinear::new().extrapolate(e)),
+        (Kind::Probe1, Elem::F64, DimTy::Ix4) => probe1_min_owned!(cfg, ndarray::Ix4),
+        (Kind::Probe1, Elem::F64, DimTy::Ix5) => probe1_min_owned!(cfg, ndarray::Ix5),
+        (Kind::Bilinear, Elem::F64, DimTy::Ix4) => owned2!(cfg, f64, ndarray::Ix4, ndarray_interp::interp2d::Bilinear::new().extrapolate(e)),
+        (Kind::Probe2, Elem::F64, DimTy::Ix4) => probe2_min_owned!(cfg, ndarray::Ix4),
         (Kind::Probe1, Elem::F64, DimTy::Ix1) => probe1_min!(cfg, ndarray::Ix1),
         (Kind::Probe1, Elem::F64, DimTy::Ix2) => probe1_min!(cfg, ndarray::Ix2),
         (Kind::Probe1, Elem::F64, DimTy::Ix3) => probe1_min!(cfg, ndarray::Ix3),
@@ -990,14 +1119,17 @@ pub fn build_slot(cfg: &SlotCfg) -> Result<Box<dyn Slot>, BuildFail> {
 /// which (kind, elem, storage, dim type, probe minimum) the generator may draw
 pub fn supported(kind: Kind, elem: Elem, storage: Storage, dimty: DimTy, _probe_min: usize) -> bool {
     use DimTy::*;
+    let owned = storage == Storage::Owned;
     match (kind, elem) {
-        (Kind::Linear, Elem::F64) | (Kind::Spline, Elem::F64) | (Kind::Probe1, Elem::F64) => {
-            let _ = storage;
-            matches!(dimty, Ix1 | Ix2 | Ix3 | IxDyn)
-        }
+        (Kind::Linear, Elem::F64) | (Kind::Probe1, Elem::F64) => matches!(dimty, Ix1 | Ix2 | Ix3 | IxDyn) || (owned && matches!(dimty, Ix4 | Ix5)),
+        (Kind::Spline, Elem::F64) => matches!(dimty, Ix1 | Ix2 | Ix3 | IxDyn) || (owned && dimty == Ix4),
+        (Kind::Spline, Elem::F32) => owned && matches!(dimty, Ix1 | Ix2),
         (Kind::Linear, Elem::F32) => matches!(dimty, Ix1 | Ix2),
-        (Kind::Bilinear, Elem::F64) | (Kind::Probe2, Elem::F64) => matches!(dimty, Ix2 | Ix3 | IxDyn),
+        (Kind::Bilinear, Elem::F64) | (Kind::Probe2, Elem::F64) => matches!(dimty, Ix2 | Ix3 | IxDyn) || (owned && dimty == Ix4),
         (Kind::Bilinear, Elem::F32) => matches!(dimty, Ix2),
+        (Kind::Linear, Elem::Yf) => owned && matches!(dimty, Ix1 | Ix2 | IxDyn),
+        (Kind::Spline, Elem::Yf) => owned && matches!(dimty, Ix1 | Ix2),
+        (Kind::Bilinear, Elem::Yf) => owned && matches!(dimty, Ix2 | Ix3),
         _ => false,
     }
 }
